@@ -42,6 +42,11 @@ def canon_term(outcomes):
     t = re.sub(r"push\((\$\d+), (\$\d+)\)", r"\1 ++ [\2]", t)
     t = re.sub(r"Chain::collect\(IntoIter::chain\(into_iter\((\$\d+|\[\])\), Some\((\$\d+)\)\)\)", r"\1 ++ [\2]", t)
     t = re.sub(r"Chain::collect\(IntoIter::chain\(into_iter\((\$\d+|\[\])\), Option::None\)\)", r"\1", t)
+    # collecting a list's own iterator gives the list (Vec -> Vec; Vec<(K, V)> -> map with the same entries, last wins)
+    prev = None
+    while prev != t:
+        prev = t
+        t = re.sub(r"IntoIter::collect\(into_iter\((\$\d+|\[[^()]*\]|[^()]*(?:\([^()]*\)[^()]*)*)\)\)", r"\1", t)
     return cfg.simplify(t)
 
 
